@@ -178,6 +178,8 @@ def shaving_consistency_algorithm(
         )
         if dom_idx == -1:  # all variables after start_idx are instantiated
             break
+        if int(stacks_top[0]) + 1 >= len(shr_domains_stack):  # no room left on the stack of choice points for shaving
+            break
         statistics[STATS_IDX_ALG_SHAVING_NB] += 1
         has_shaved = shave_bound(
             bound,
